@@ -352,11 +352,17 @@ func run(c *ev.Ctx) {
 	}
 	scalarFamily(c)
 	orSetFamily(c)
+	paddedNames(c)
 }
 
 func replay(raw stdjson.RawMessage) (bool, string) {
 	if v, d, ok := replayScalar(raw); ok {
 		return v, d
+	}
+	var pn paddedNameCase
+	if err := stdjson.Unmarshal(raw, &pn); err == nil && pn.Schema != "" {
+		_, r := lib.Check(lib.SchemaSpec{Text: pn.Schema, OptionalDef: pn.Opt})
+		return true, fmt.Sprintf("schema %q: Check %s (replay shows the library's verdict)", pn.Schema, r)
 	}
 	var o orSetCase
 	if err := stdjson.Unmarshal(raw, &o); err == nil && len(o.Set) > 0 {
